@@ -3,6 +3,7 @@ package main
 import (
 	"fmt"
 	"os"
+	"runtime/pprof"
 	"path/filepath"
 	"sort"
 	"strings"
@@ -37,6 +38,16 @@ func main() {
 	os.Setenv("GOSUMDB", "off")
 	if len(os.Args) < 2 {
 		usage()
+	}
+	if pf := os.Getenv("GOVC_PROF"); pf != "" {
+		f, _ := os.Create(pf)
+		pprof.StartCPUProfile(f)
+		go func() {
+			time.Sleep(40 * time.Second)
+			pprof.StopCPUProfile()
+			f.Close()
+			os.Exit(3)
+		}()
 	}
 	switch os.Args[1] {
 	case "fn":
